@@ -45,7 +45,8 @@ def _system():
         star = build_world('55cnc')
         host = build_world('jupiter')
         base = build_world('earth_simple')
-        cfg = {'type': 'simple_tidal', 'force_spin_sync': True,
+        # tides are switched off: this property is about the orbit's own bookkeeping (a, n, P), not the tidal model
+        cfg = {'type': 'simple_tidal', 'force_spin_sync': True, 'tides_on': False,
                'tides': {'model': 'global_approx', 'fixed_q': 100.0, 'use_ctl': False, 'eccentricity_truncation_lvl': 2,
                          'max_tidal_order_l': 2, 'obliquity_tides_on': False}}
         w1 = build_from_world(base, new_config=dict(cfg, name='bodyA', mass=5.972e24))
